@@ -12,7 +12,7 @@ ASSUMPTIONS = [
     'on every run (translator/py2coq.py -> Gen/GenFuncs.v) and proved equal to the model (Glue/WireGlue.v, theorem source_is_model); '
     '(b) differential correspondence of every lib_* function against the public API on each run',
     'Signature.parse_bytes / Key() acceptance inside Script.parse are oracles (sig_ok, key_ok) in the model; '
-    'script-type post-processing of parse_bytesio (multisig consistency errors) is not modelled',
+    'of the script-type post-processing of parse_bytesio only the bare-multisig consistency errors are modelled',
 ]
 RULE = ('boundary streams (every CompactSize / push / script-number form change), exhaustive small ranges, '
         'exhaustive command lists over a fixed alphabet up to a length bound, seeded random streams; '
@@ -202,6 +202,34 @@ def gen_cases(rng, tier):
                 ln = rng.choice(DLENS) if rng.random() < 0.7 else rng.randrange(1, 90)
                 cmds.append(rand_data(rng, ln))
         script_cases(cmds, cs)
+    # standard templates and every single-command / single-byte mutation of them (shortcuts keyed on a prefix,
+    # a length or a trailing opcode show up here)
+    h20, h32 = rand_data(rng, 20), rand_data(rng, 32)
+    templates = [
+        [0x76, 0xa9, h20, 0x88, 0xac], [0xa9, h20, 0x87], [0x00, h20], [0x00, h32], [0x51, h32],
+        [0x6a, rand_data(rng, 20)], [0x6a, rand_data(rng, 40)], [G, 0xac], [0x51, G, 0x51, 0xae], [0x52, G, G, 0x52, 0xae],
+        [0x52, h20, 0xb1, 0x75, 0x76, 0xa9, h20, 0x88, 0xac],
+    ]
+    sub_ops = [0x00, 0x51, 0x60, 0x6a, 0x75, 0x76, 0x87, 0x88, 0xa9, 0xaa, 0xac, 0xad, 0xae, 0xaf]
+    for tpl in templates:
+        script_cases(tpl, cs)
+        for i in range(len(tpl)):
+            for o in sub_ops:
+                if tpl[i] != o:
+                    script_cases(tpl[:i] + [o] + tpl[i + 1:], cs)
+            script_cases(tpl[:i] + tpl[i + 1:], cs)
+            script_cases(tpl[:i] + [0x75] + tpl[i:], cs)
+            if not isinstance(tpl[i], int):
+                for ln in (19, 21, 31, 33):
+                    script_cases(tpl[:i] + [rand_data(rng, ln)] + tpl[i + 1:], cs)
+        raw = spec_ser(tpl)
+        for i in range(len(raw)):
+            for v in {raw[i] ^ 1, (raw[i] + 1) % 256, 0x87, 0xad} - {raw[i]}:
+                m = raw[:i] + bytes([v]) + raw[i + 1:]
+                if data_type(m[1:]) in ('sig', 'key') or any(data_type(m[j:j + 33]) == 'key' for j in range(len(m))):
+                    continue
+                for entry in ('len', 'half'):
+                    cs.append(Case('parse_mutated_' + entry, 'parse %s %s' % (entry, hx(m)), meta=None))
     # scripts of total length exactly 64 / 33 / 65 / 69..74 (whole-script heuristic) and 128/66/130 (parse(bytes))
     for total in (33, 64, 65, 66, 70, 128, 130, 140):
         for first in (0x51, 0x02, 0x04, 0x76):
